@@ -81,6 +81,9 @@ for cls, roles0, how, roles1 in ([] if bad else reuse_scenarios()):
         p.discard(a)
     if how == 'close_untold' and cls is pollers.Select:
         p.discard(a)      # select() itself raises on a closed descriptor; Select users must discard before closing
+    if how != 'close_untold' and any(v is a for v in getattr(p, '_map', {}).values()):
+        bad.append('%s: after %s the poller still maps a number to the discarded descriptor (old roles %s): state retained for a '
+                   'descriptor that is gone' % (cls.__name__, how, roles0))
     a.close()
     if how != 'hangup':
         b.close()
